@@ -525,15 +525,16 @@ Qed.
 Definition ok_kind (k : fkind) : bool := match k with JsonBroken | TxtBroken => false | _ => true end.
 
 Lemma sem_member_allow : forall f i k, ok_kind k = true ->
-  sem Allow (ser_member (S f) None i k) = Some ([in_store i k], Allow).
+  sem Allow (ser_member (S f) None i k) = Some ([member_form i k], Allow).
 Proof.
-  intros f i k Hk. destruct k; try discriminate; cbn [ser_member sem in_store].
+  intros f i k Hk. destruct k; try discriminate; cbn [ser_member sem in_store member_form].
   - reflexivity.
   - rewrite sem_cmd_IfMode. cbn [branch sem]. rewrite sem_emit_string, sem_cmd_IfChanged.
     cbn [sem sem_cmd]. rewrite Nat.eqb_refl. cbn [app mode_eqb]. reflexivity.
   - rewrite sem_cmd_IfMode. cbn [branch sem]. rewrite sem_emit_string, sem_cmd_IfChanged.
     cbn [sem sem_cmd]. rewrite sem_app, (sem_member_noinc f (Some i) i Json eq_refl).
     cbn [sem sem_cmd sink_out app mode_eqb]. reflexivity.
+  - reflexivity.
 Qed.
 
 Lemma sem_members_allow : forall f mem i, writable mem = true ->
@@ -541,7 +542,16 @@ Lemma sem_members_allow : forall f mem i, writable mem = true ->
 Proof.
   intros f mem. induction mem as [|k mem IH]; intros i W; cbn [ser_members store_form]; [reflexivity|].
   cbn [writable forallb] in W. apply andb_true_iff in W as [Wk Wm].
-  rewrite sem_app, (sem_member_allow f i k Wk), (IH _ Wm). reflexivity.
+  destruct k; try discriminate;
+    try (rewrite sem_app;
+         first [rewrite (sem_member_allow f i NoFile eq_refl) | rewrite (sem_member_allow f i Txt eq_refl)
+               | rewrite (sem_member_allow f i Json eq_refl)];
+         rewrite (IH _ Wm); reflexivity).
+  change (ser_members (S f) i (SubStore :: mem)) with ([Emit (t_include i); Yield; FEmit i (t_inline i)] ++ ser_members (S f) (S i) mem).
+  rewrite sem_app.
+  assert (E : sem Allow [Emit (t_include i); Yield; FEmit i (t_inline i)] = Some ([t_include i], Allow)).
+  { cbn [sem sem_cmd]. rewrite Nat.eqb_refl. reflexivity. }
+  rewrite E, (IH _ Wm). reflexivity.
 Qed.
 
 Lemma writable_kind_of : forall mem i, writable mem = true -> ok_kind (kind_of mem i) = true.
@@ -567,6 +577,7 @@ Proof.
   - reflexivity.
   - pose proof (writable_kind_of mem i W) as K. destruct (kind_of mem i); try discriminate;
       cbn [sem sem_cmd]; rewrite ?Nat.eqb_refl; reflexivity.
+  - reflexivity.
   - reflexivity.
 Qed.
 
